@@ -206,6 +206,17 @@ def add_traps(draw, s):
                       [['r2', 'n'], ['+', '1', ['r1', 'n']]]])
         traps.add('define-funs-rec')
     if draw(st.booleans()):
+        # quoted symbols that must stay quoted: every printable character that a
+        # simple symbol may not contain (and one that it may, as control)
+        specials = ' #\'(),:;[]`{}"'
+        for ch in draw(st.lists(st.sampled_from(specials + '.-+<=!'), min_size=1, max_size=3, unique=True)):
+            a, b = draw(st.sampled_from(['x', 'main', 'a1'])), draw(st.sampled_from(['y', '1', 'b']))
+            name = '|' + a + ch + b + '|'
+            if not any(c[0] == 'declare-const' and c[1] == name for c in extra):
+                extra.append(['declare-const', name, 'Int'])
+                extra.append(['assert', ['>', name, '0']])
+        traps.add('quoted-symbol-with-special-char')
+    if draw(st.booleans()):
         extra.append(['declare-const', '|quoted sym|', 'Int'])
         extra.append(['declare-const', '|plainquoted|', 'Int'])
         extra.append(['assert', ['<', '|quoted sym|', '|plainquoted|']])
